@@ -556,7 +556,8 @@ func c02FuzzBases(tb testing.TB) []*c02FuzzBase {
 			key := cgSigningKey(cu, 1)
 			cas := cgSpec{Version: v, Curve: cu, Name: "fuzz ca", IsCA: true, NB: cgT0 - 1000, NA: cgT0 + 100000, Pub: key.pub,
 				Groups: []string{"ops", "dev"}, Networks: []netip.Prefix{netip.MustParsePrefix("10.0.0.0/8")}}
-			cac, err := cas.tbs().Sign(nil, cu, key.priv)
+			// deterministic signatures: every fuzz process has to rebuild exactly the same certificates
+			cac, err := cas.tbs().SignWith(nil, cu, key.signDeterministic)
 			if err != nil {
 				tb.Fatalf("harness: %v", err)
 			}
@@ -565,7 +566,7 @@ func c02FuzzBases(tb testing.TB) []*c02FuzzBase {
 			s := cgSpec{Version: v, Curve: cu, Name: "fuzz leaf", Networks: []netip.Prefix{netip.MustParsePrefix("10.1.2.3/24")},
 				Unsafe: []netip.Prefix{netip.MustParsePrefix("192.168.0.0/16")}, Groups: []string{"ops"}, NB: cgT0, NA: cgT0 + 3600,
 				Pub: cgLeafPub(cu, 0), Issuer: cafp}
-			c, err := s.tbs().Sign(cac, cu, key.priv)
+			c, err := s.tbs().SignWith(cac, cu, key.signDeterministic)
 			if err != nil {
 				tb.Fatalf("harness: %v", err)
 			}
@@ -611,6 +612,9 @@ func FuzzC02Tamper(f *testing.F) {
 			p := NewCAPool()
 			p.AddCA(o.ca.cert)
 			return p
+		}
+		if _, err := pool().VerifyCertificate(time.Unix(o.t, 0), o.cert); err != nil {
+			t.Fatalf("harness: the base certificate does not verify: %v", err)
 		}
 		c02Judge(func(f string, a ...any) { t.Fatalf(f, a...) }, o, mc, pool, fmt.Sprintf("  base %d handshake=%v input %x", int(which)%len(bases), handshake, data))
 	})
